@@ -23,9 +23,10 @@ import (
 //	              .Always (the helpers on the way perform it on every returning path)
 
 type c05Frame struct {
-	F  *core.FuncInfo
-	Up *c05Frame      // nil for the root
-	At *core.CallSite // the call in Up.F that enters F
+	F   *core.FuncInfo
+	Up  *c05Frame      // nil for the root
+	At  *core.CallSite // the call in Up.F that enters F
+	Lex *c05Frame      // for a function literal: the frame of the function in which the literal is written
 }
 
 // c05Callee returns the declared module function entered by a plain static call (no interface dispatch,
@@ -60,24 +61,75 @@ func c05Frames(root *core.FuncInfo, depth int, scope func(*core.FuncInfo) bool) 
 			return
 		}
 		for _, cs := range fr.F.Calls() {
-			g := c05Callee(cs)
-			if g == nil || (scope != nil && !scope(g)) {
+			sub := c05Enter(fr, cs)
+			if sub == nil || (scope != nil && !scope(sub.F)) {
 				continue
 			}
-			active := false
-			for a := fr; a != nil; a = a.Up {
-				if a.F == g {
-					active = true
-				}
-			}
-			if active {
-				continue
-			}
-			walk(&c05Frame{F: g, Up: fr, At: cs}, d-1)
+			walk(sub, d-1)
 		}
 	}
 	walk(&c05Frame{F: root}, depth)
 	return out
+}
+
+// c05Enter returns the activation entered by the call cs made in frame fr: a declared module function
+// (plain static call), or a function literal that the called variable certainly denotes — a callback
+// parameter of fr.F that the caller bound to a literal, or a single-definition local holding a literal.
+// nil when the callee is unknown, already active on the chain, or the call is a go/defer/conversion.
+func c05Enter(fr *c05Frame, cs *core.CallSite) *c05Frame {
+	sub := &c05Frame{Up: fr, At: cs}
+	if g := c05Callee(cs); g != nil {
+		sub.F = g
+	} else {
+		if cs.InGo || cs.InDefer || cs.IsConv {
+			return nil
+		}
+		v, ok := cs.Callee.(*types.Var)
+		if !ok || v.IsField() {
+			return nil
+		}
+		id, ok := ast.Unparen(cs.Call.Fun).(*ast.Ident)
+		if !ok {
+			return nil
+		}
+		lfr, x := c05Resolve(fr, id)
+		lit, ok := ast.Unparen(x).(*ast.FuncLit)
+		if !ok {
+			return nil
+		}
+		g := lfr.F.P.LitInfo(lit)
+		if g == nil || g.Body == nil || g.Type == nil || g.Type.Params == nil {
+			return nil
+		}
+		if sig, _ := lfr.F.Info().TypeOf(lit).(*types.Signature); sig == nil || sig.Variadic() {
+			return nil
+		}
+		sub.F, sub.Lex = g, lfr
+	}
+	for a := fr; a != nil; a = a.Up {
+		if a.F == sub.F {
+			return nil
+		}
+	}
+	return sub
+}
+
+// c05Inside: pos lies in the source extent of g (parameters and body).
+func c05Inside(g *core.FuncInfo, pos token.Pos) bool {
+	if g.Lit != nil {
+		return g.Lit.Pos() <= pos && pos < g.Lit.End()
+	}
+	return g.Decl != nil && g.Decl.Pos() <= pos && pos < g.Decl.End()
+}
+
+// c05CallSiteOf: the call site record of the call expression in g's own body.
+func c05CallSiteOf(g *core.FuncInfo, call *ast.CallExpr) *core.CallSite {
+	for _, cs := range g.Calls() {
+		if cs.Call == call {
+			return cs
+		}
+	}
+	return nil
 }
 
 // c05StableParam: v is a parameter (index >= 0) or the receiver (index -1) of g that g never reassigns
@@ -131,6 +183,18 @@ func c05StableParam(g *core.FuncInfo, v *types.Var) (index int, ok bool) {
 // frame. The result is an expression of the returned frame's function.
 func c05Resolve(fr *c05Frame, e ast.Expr) (*c05Frame, ast.Expr) {
 	for step := 0; step < 12 && e != nil; step++ {
+		// a variable captured by a function literal lives in the frame of the function that wrote the literal
+		for fr.Lex != nil {
+			id, isID := ast.Unparen(e).(*ast.Ident)
+			if !isID {
+				break
+			}
+			v, _ := fr.F.Info().ObjectOf(id).(*types.Var)
+			if v == nil || v.IsField() || c05Inside(fr.F, v.Pos()) {
+				break
+			}
+			fr = fr.Lex
+		}
 		e = resolveLocal(fr.F, e)
 		id, isID := ast.Unparen(e).(*ast.Ident)
 		if !isID || fr.Up == nil {
@@ -187,7 +251,7 @@ func c05FieldIn(fr *c05Frame, e ast.Expr) (name string, onRootRecv bool) {
 	if e == nil {
 		return "", false
 	}
-	fr2, e2 := c05Resolve(fr, e)
+	fr2, e2 := c05ResolveDeep(fr, e)
 	name = fieldNameOf(fr2.F, e2)
 	if name == "" {
 		return "", false
@@ -303,6 +367,177 @@ func c05DefiningCall(fr *c05Frame, e ast.Expr) (*c05Frame, *ast.CallExpr) {
 				rhs = d.RHS
 			}
 			if n != 1 || rhs == nil || rhs == e {
+				return fr, nil
+			}
+			e = rhs
+		default:
+			return fr, nil
+		}
+	}
+	return fr, nil
+}
+
+// c05StoredThrough: some assignment of g (or of its literals) stores through the variable v
+// (v.f = …, v[i] = …, *v = …), so v is a mutable object rather than a name for its defining value.
+func c05StoredThrough(g *core.FuncInfo, v *types.Var) bool {
+	for _, h := range append([]*core.FuncInfo{g}, allLits(g)...) {
+		for _, a := range assignments(h) {
+			root, depth := ast.Unparen(a.LHS), 0
+			for {
+				switch x := root.(type) {
+				case *ast.SelectorExpr:
+					root, depth = ast.Unparen(x.X), depth+1
+					continue
+				case *ast.IndexExpr:
+					root, depth = ast.Unparen(x.X), depth+1
+					continue
+				case *ast.StarExpr:
+					root, depth = ast.Unparen(x.X), depth+1
+					continue
+				}
+				break
+			}
+			if depth > 0 && varOfRaw(h, root) == v {
+				return true
+			}
+		}
+	}
+	return false
+}
+
+// c05ResolveDeep extends c05Resolve by two provenance steps (symbolic, no evaluation):
+//
+//	projection   X.f where X denotes a struct value built by a composite literal (directly, held in a
+//	             never-modified local or parameter, or returned by a helper) stands for the literal's
+//	             element of field f, in the frame that wrote the literal;
+//	result       a call of a module function or bound literal with a single return statement stands for
+//	             the returned expression, in the callee's activation.
+//
+// The result is an expression of the returned frame's function; anything else is left as it is.
+func c05ResolveDeep(fr *c05Frame, e ast.Expr) (*c05Frame, ast.Expr) {
+	return c05ResolveDeepX(fr, e, nil)
+}
+
+// c05ResolveDeepX: as c05ResolveDeep; calls whose canonical callee name is accepted by opaque are not entered.
+func c05ResolveDeepX(fr *c05Frame, e ast.Expr, opaque func(name string) bool) (*c05Frame, ast.Expr) {
+	for step := 0; step < 10 && e != nil; step++ {
+		fr, e = c05Resolve(fr, e)
+		switch x := ast.Unparen(e).(type) {
+		case *ast.SelectorExpr:
+			sel, ok := fr.F.Info().Selections[x]
+			if !ok || sel.Kind() != types.FieldVal || len(sel.Index()) != 1 {
+				return fr, e
+			}
+			fld, _ := sel.Obj().(*types.Var)
+			if fld == nil {
+				return fr, e
+			}
+			if bv := varOfRaw(fr.F, x.X); bv != nil && c05StoredThrough(fr.F, bv) {
+				return fr, e
+			}
+			bfr, bx := c05ResolveDeepX(fr, x.X, opaque)
+			bx = ast.Unparen(bx)
+			if u, isU := bx.(*ast.UnaryExpr); isU && u.Op == token.AND {
+				bx = ast.Unparen(u.X)
+			}
+			cl, isLit := bx.(*ast.CompositeLit)
+			if !isLit {
+				return fr, e
+			}
+			st, _ := bfr.F.Info().TypeOf(cl).Underlying().(*types.Struct)
+			if st == nil {
+				return fr, e
+			}
+			var el ast.Expr
+			for i, elt := range cl.Elts {
+				if kv, keyed := elt.(*ast.KeyValueExpr); keyed {
+					if id, isID := kv.Key.(*ast.Ident); isID && bfr.F.Info().ObjectOf(id) == types.Object(fld) {
+						el = kv.Value
+					}
+				} else if i < st.NumFields() && st.Field(i) == fld {
+					el = elt
+				}
+			}
+			if el == nil {
+				return fr, e
+			}
+			fr, e = bfr, el
+		case *ast.CallExpr:
+			cs := c05CallSiteOf(fr.F, x)
+			if cs == nil || (opaque != nil && opaque(cs.Name)) {
+				return fr, e
+			}
+			sub := c05Enter(fr, cs)
+			if sub == nil {
+				return fr, e
+			}
+			rets := sub.F.ReturnPoints()
+			if len(rets) != 1 {
+				return fr, e
+			}
+			rs, _ := rets[0].Node().(*ast.ReturnStmt)
+			if rs == nil || len(rs.Results) != 1 {
+				return fr, e
+			}
+			fr, e = sub, rs.Results[0]
+		default:
+			return fr, e
+		}
+	}
+	return fr, e
+}
+
+// c05Origin reads a value back to the opaque call that produced it: conversions, the address of a
+// local holding the value, single-definition locals (also the first result of `x, err := call()`),
+// parameter bindings, struct projections and the results of helpers and bound callbacks are looked
+// through. (nil call: the value does not come from a call the view can name.)
+func c05Origin(fr *c05Frame, e ast.Expr) (*c05Frame, *ast.CallExpr) {
+	return c05OriginX(fr, e, nil)
+}
+
+// c05OriginX: as c05Origin; calls accepted by opaque are reported as the origin instead of being entered.
+func c05OriginX(fr *c05Frame, e ast.Expr, opaque func(name string) bool) (*c05Frame, *ast.CallExpr) {
+	for step := 0; step < 16 && e != nil; step++ {
+		var x ast.Expr
+		fr, x = c05ResolveDeepX(fr, e, opaque)
+		if s := core.StripConv(fr.F.Info(), x); s != x {
+			e = s
+			continue
+		}
+		switch y := ast.Unparen(x).(type) {
+		case *ast.UnaryExpr:
+			if y.Op != token.AND {
+				return fr, nil
+			}
+			e = y.X
+		case *ast.CallExpr:
+			return fr, y
+		case *ast.Ident:
+			v := varOf(fr.F, y)
+			if v == nil || !c05Inside(fr.F, v.Pos()) {
+				return fr, nil
+			}
+			var rhs ast.Expr
+			n := 0
+			for _, d := range assignsToVar(fr.F, v) {
+				if d.RHS == nil {
+					if _, spec := d.Stmt.(*ast.ValueSpec); spec {
+						continue
+					}
+					return fr, nil
+				}
+				if as, ok := d.Stmt.(*ast.AssignStmt); ok && len(as.Lhs) != len(as.Rhs) && (len(as.Lhs) == 0 || ast.Unparen(as.Lhs[0]) != ast.Unparen(d.LHS)) {
+					return fr, nil // not the first result of the multi-value call
+				}
+				n++
+				rhs = d.RHS
+			}
+			for _, l := range allLits(fr.F) {
+				if len(assignsToVar(l, v)) > 0 {
+					return fr, nil
+				}
+			}
+			if n != 1 || rhs == nil || ast.Unparen(rhs) == ast.Expr(y) {
 				return fr, nil
 			}
 			e = rhs
